@@ -84,6 +84,8 @@ class RefDecoder:
         self.ix_o = {}
         self.unknown_ok = unknown_ok
         self.notes = set()
+        self.kind_changed_v9 = set()    # ids redefined from template to options template or back
+        self.kind_changed_ix = set()
 
     # ---- V9 (RFC 3954)
     def v9(self, p):
@@ -117,6 +119,9 @@ class RefDecoder:
                     fs = [(u(body[q + 4 + 4 * i : q + 6 + 4 * i]), u(body[q + 6 + 4 * i : q + 8 + 4 * i])) for i in range(cnt)]
                     ts.append((tid, fs))
                     self.v9_t[tid] = fs
+                    # an id names ONE template: a definition of either kind supersedes the previous one
+                    if self.v9_o.pop(tid, None) is not None:
+                        self.kind_changed_v9.add(tid)
                     q += 4 + 4 * cnt
                 pad = body[q:]
                 if len(pad) > 3 or any(pad):
@@ -136,6 +141,8 @@ class RefDecoder:
                     op = [(u(body[q2 + 4 * i : q2 + 2 + 4 * i]), u(body[q2 + 2 + 4 * i : q2 + 4 + 4 * i])) for i in range(ol // 4)]
                     ts.append((tid, sl, ol, sc, op))
                     self.v9_o[tid] = (sc, op)
+                    if self.v9_t.pop(tid, None) is not None:
+                        self.kind_changed_v9.add(tid)
                     q = q2 + ol
                 pad = body[q:]
                 if len(pad) > 3 or any(pad):
@@ -143,8 +150,6 @@ class RefDecoder:
                 out.append(("O", fid, ln, ts, pad))
             elif fid < 256:
                 raise NotConformant("reserved flowset id")
-            elif fid in self.v9_t and fid in self.v9_o:
-                raise NotConformant("id names both a template and an options template")
             elif fid in self.v9_t:
                 fs = self.v9_t[fid]
                 size = sum(l for _, l in fs)
@@ -243,7 +248,8 @@ class RefDecoder:
                     fs, q = self.ipfix_fields(body, q + 4, cnt)
                     ts.append((tid, cnt, fs))
                     self.ix_t[tid] = fs
-                    self.ix_o.pop(tid, None)
+                    if self.ix_o.pop(tid, None) is not None:
+                        self.kind_changed_ix.add(tid)
                 pad = body[q:]
                 if any(pad):
                     raise NotConformant("template set padding")
@@ -260,7 +266,8 @@ class RefDecoder:
                     fs, q = self.ipfix_fields(body, q + 6, cnt)
                     ts.append((tid, cnt, sc, fs))
                     self.ix_o[tid] = fs
-                    self.ix_t.pop(tid, None)
+                    if self.ix_t.pop(tid, None) is not None:
+                        self.kind_changed_ix.add(tid)
                 pad = body[q:]
                 if any(pad):
                     raise NotConformant("options template set padding")
